@@ -39,6 +39,10 @@ type c18Job struct {
 	// alone. Isolation: stdout(pair) must be stdout(A) followed by stdout(B).
 	PairOf [2]int
 	IsPair bool
+	// Good: a plain decode of a sample under its own format (the cold-start rounds use these);
+	// Trunc: the same sample cut at 60% (a decode that fails inside nested values: the burst histories repeat these)
+	Good  bool
+	Trunc bool
 }
 
 // c18Jobs: a deterministic list from the corpus (independent of VERIF_SEED so that goldens are comparable)
@@ -62,6 +66,11 @@ func c18Jobs(max int) []c18Job {
 		}
 		perFormat[f]++
 		add(it.Path, it.Data, "-d", f, "dv")
+		jobs[len(jobs)-1].Good = true
+		if len(it.Data) >= 8 {
+			add(it.Path+"[:60%]", it.Data[:len(it.Data)*6/10], "-d", f, "dv")
+			jobs[len(jobs)-1].Trunc = true
+		}
 		switch len(jobs) % 4 {
 		case 0:
 			add(it.Path, it.Data, "-d", f, "-c", "tovalue")
@@ -158,6 +167,9 @@ func c18Jobs(max int) []c18Job {
 			if j.IsPair {
 				needed[i], needed[j.PairOf[0]], needed[j.PairOf[1]] = true, true, true
 			}
+			if j.Good || j.Trunc {
+				needed[i] = true
+			}
 		}
 		var plain []int
 		for i := range jobs {
@@ -253,6 +265,73 @@ func c18Child(mode string, outPath string, nJobs int) {
 			out.Outputs[key] = o
 			out.Runs++
 		}
+	case "burst":
+		// every failing (truncated) decode 12 times in a row, then every good and truncated job once: state that a failed decode
+		// leaves behind (a counter not restored on the panic path, a cache entry of a partial result) accumulates
+		// and shows in the later good decodes (seed C18-C)
+		seen := map[int]int{}
+		runOne := func(k int) {
+			o := c18RunJob(jobs[k])
+			out.Outputs[fmt.Sprintf("%d#%d", k, seen[k])] = o
+			seen[k]++
+			out.Runs++
+		}
+		nt := 0
+		for k, j := range jobs {
+			if j.Trunc {
+				if nt++; nt%3 != int(seed)%3 {
+					continue // three burst processes share the truncated jobs
+				}
+				for r := 0; r < 12; r++ {
+					runOne(k)
+				}
+			}
+		}
+		for k, j := range jobs {
+			if j.Good || j.Trunc {
+				runOne(k)
+			}
+		}
+	case "cold":
+		// cold-start rounds: all G goroutines run the SAME good job at the same moment, for 12 jobs of the list
+		// (offset = last field). Lazily initialised process-wide state of that format (tables built on first use,
+		// a registry resolved on first lookup) is then reached by several goroutines at once; a later use by
+		// another goroutine is usually ordered after the first by some unrelated lock and shows no race (seed C18-D)
+		var G, procs int
+		fmt.Sscan(parts[1], &G)
+		fmt.Sscan(parts[2], &procs)
+		runtime.GOMAXPROCS(procs)
+		var good []int
+		for k, j := range jobs {
+			if j.Good {
+				good = append(good, k)
+			}
+		}
+		var mu sync.Mutex
+		for r := 0; r < 12; r++ {
+			idx := int(seed)*12 + r
+			if idx >= len(good) {
+				break
+			}
+			k := good[idx]
+			var wg sync.WaitGroup
+			start := make(chan struct{})
+			for g := 0; g < G; g++ {
+				wg.Add(1)
+				go func(g int) {
+					defer wg.Done()
+					<-start
+					o := c18RunJob(jobs[k])
+					mu.Lock()
+					out.Outputs[fmt.Sprintf("%d#c%d", k, g)] = o
+					mu.Unlock()
+					atomic.AddInt64(&out.Runs, 1)
+				}(g)
+			}
+			close(start)
+			wg.Wait()
+			out.Pairs += int64(G * (G - 1) / 2)
+		}
 	case "conc":
 		var G, procs int
 		fmt.Sscan(parts[1], &G)
@@ -320,7 +399,7 @@ func c18Main(args []string) {
 		os.Exit(0)
 	}
 	run := ev.NewRun("C18")
-	run.Rule = "jobs = (corpus sample or failing foreign-format decode or option-carrying decode, CLI arguments dv / tovalue / tobytes|tohex / dd with options) run through interp.Main on the shared DefaultRegistry; golden process = every job once in natural order; history processes = PRNG permutations with triple repeats; concurrency processes = G goroutines x 6 jobs with a start barrier, GOMAXPROCS in {1,2,16}, each in a fresh process; every output compared byte for byte with the golden; race detector reports are violations. non-trivial = a run of a job whose predecessor/neighbour differs from the golden order; distinct = (job, mode, position)"
+	run.Rule = "jobs = (corpus sample or failing foreign-format decode or option-carrying decode, CLI arguments dv / tovalue / tobytes|tohex / dd with options) run through interp.Main on the shared DefaultRegistry; golden process = every job once in natural order; history processes = PRNG permutations with triple repeats, and a burst history (every truncated decode 12x in a row, then every job once); cold-start processes = for each good job all G goroutines run it at the same moment in a fresh process (12 jobs per process); concurrency processes = G goroutines x 6 jobs with a start barrier, GOMAXPROCS in {1,2,16}, each in a fresh process; every output compared byte for byte with the golden; race detector reports are violations. non-trivial = a run of a job whose predecessor/neighbour differs from the golden order; distinct = (job, mode, position)"
 	run.Assumptions = []string{"binary built with -race", "goldens come from the same binary in a fresh process (job list is independent of VERIF_SEED)"}
 	jobs := c18Jobs(nJobs)
 	dir, err := os.MkdirTemp("", "verif-c18-")
@@ -356,8 +435,18 @@ func c18Main(args []string) {
 			modes = append(modes, fmt.Sprintf("conc:%d:%d:%d", c.g, c.p, run.Seed*1000+uint64(r*10+i)))
 		}
 	}
+	modes = append(modes, "burst:0", "burst:1", "burst:2")
+	nGood := 0
+	for _, j := range jobs {
+		if j.Good {
+			nGood++
+		}
+	}
+	for off := 0; off*12 < nGood; off++ {
+		modes = append(modes, fmt.Sprintf("cold:%d:%d:%d", []int{4, 8, 3}[off%3], []int{16, 4, 2}[off%3], off))
+	}
 	children := make([]*child, len(modes))
-	sem := make(chan struct{}, 6)
+	sem := make(chan struct{}, 8)
 	var wg sync.WaitGroup
 	for i, m := range modes {
 		children[i] = &child{mode: m, out: filepath.Join(dir, fmt.Sprintf("out-%d.json", i)), race: filepath.Join(dir, fmt.Sprintf("race-%d", i))}
